@@ -1,6 +1,61 @@
 import SlVerif.Model.Rvole
+import Std.Data.HashMap
+
+deriving instance Hashable for SlVerif.TOp, SlVerif.Transcript, SlVerif.Curve, SlVerif.Query
+
 namespace SlVerif.Drv.Rvole
 open SlVerif SlVerif.Rvole SlVerif.Generated
+
+/-! The oracle is a function (the harness answers with deterministic library calls), so its answers may be memoised:
+    the base-OT layer is asked for by every receiver-process of the base-OT variant on the same base-OT messages, the
+    OT-extension layer shares queries between the two parties, and the gadget vector (512 challenges on one growing
+    transcript, ~5 MB of query text) is asked for by receiver-new, sender-process and receiver-process of the same
+    session.  The large theta / mu transcripts are never stored; gadget queries are recognised structurally and stored
+    under (session id, index). -/
+initialize memo : IO.Ref (Std.HashMap Query Bytes) ← IO.mkRef {}
+initialize gadgetMemo : IO.Ref (Std.HashMap (Bytes × Nat) Bytes) ← IO.mkRef {}
+
+/-- `ops` = the operations `[u64 "index" i, chal "next value" 32, u64 "index" (i+1), …]` of `gadgetLoop`, `n` pairs -/
+def isGadgetTail (lIdx lVal : Bytes) : Nat → Nat → List TOp → Bool
+  | 0, _, ops => ops.isEmpty
+  | n+1, i, TOp.u64 l v :: TOp.chal l' k :: rest =>
+      l == lIdx && v == i && l' == lVal && k == KAPPA_BYTES && isGadgetTail lIdx lVal n (i+1) rest
+  | _, _, _ => false
+
+/-- `some (sid, k)` iff `t` is exactly the transcript of the k-th challenge (k ≥ 1) of `gadgetVec O sid` -/
+def gadgetQuery? (t : Transcript) : Option (Bytes × Nat) :=
+  if t.init ≠ labelBytes RANDOM_VOLE_GADGET_VECTOR_LABEL then none else
+  match t.ops with
+  | TOp.msg l sid :: rest =>
+      let k := rest.length / 2
+      if l == ascii "session-id" && rest.length == 2 * k && k ≥ 1 && isGadgetTail (ascii "index") (ascii "next value") k 0 rest
+      then some (sid, k) else none
+  | _ => none
+
+def memoizable : Query → Bool
+  | .merlin t => t.init ≠ labelBytes RANDOM_VOLE_THETA_LABEL && t.init ≠ labelBytes RANDOM_VOLE_MU_LABEL &&
+                 t.init ≠ labelBytes RANDOM_VOLE_GADGET_VECTOR_LABEL
+  | _ => false
+
+def memoO (O : Query → IO Bytes) (q : Query) : IO Bytes := do
+  if let .merlin t := q then
+    if let some key := gadgetQuery? t then
+      let mp ← gadgetMemo.swap {}
+      match mp[key]? with
+      | some a => gadgetMemo.set mp; return a
+      | none =>
+          let a ← O q
+          gadgetMemo.set ((if mp.size > 20000 then {} else mp).insert key a)
+          return a
+  if !memoizable q then O q else
+  -- the map is taken out of the reference while it is used, so that `insert` updates it in place
+  let mp ← memo.swap {}
+  match mp[q]? with
+  | some a => memo.set mp; pure a
+  | none => do
+      let a ← O q
+      memo.set ((if mp.size > 40000 then {} else mp).insert q a)
+      pure a
 
 /-! wire helpers -/
 
@@ -104,7 +159,7 @@ def otState (sid beta : Bytes) (tAa tAb : List Nat) : OtRecvState :=
     `rvole otadv <sid> <a0,a1> <RVOLEMsg1> <tape> <devs>[;…]` → `<RVOLEMsg2>[,…]` | `err`
     `rvole otflips <sid> <beta> <t_a a> <t_a b> <RVOLEMsg2> <positions>` → per position `0` | `e` (decode error) | `1/<d0>/<d1>`
     `rvole pipeline <sid> <receiver tape> <sender tape>`    → `ok:<otp_enc_keys>:<random_choices>:<otp_dec_keys>` | `err` -/
-def handle (O : Query → IO Bytes) : List String → IO (Option String)
+def handleM (O : Query → IO Bytes) : List String → IO (Option String)
   | ["gadget", sid] => do
       match hexToBytes? sid with
       | some sid => pure (some (scList (← gadgetVec O sid)))
@@ -235,5 +290,7 @@ def handle (O : Query → IO Bytes) : List String → IO (Option String)
           | none => pure (some "err")
       | _, _, _ => pure none
   | _ => pure none
+
+def handle (O : Query → IO Bytes) (toks : List String) : IO (Option String) := handleM (memoO O) toks
 
 end SlVerif.Drv.Rvole
